@@ -10,6 +10,7 @@ import (
 	"fmt"
 	"os"
 	"path/filepath"
+	"reflect"
 	"sync"
 )
 
@@ -72,6 +73,7 @@ func (s *Sink) Put(sc *Scenario) int {
 	w := s.ws[sh]
 	for _, e := range sc.Events {
 		e["scn"] = sc.ID
+		noNil(e)
 		b, err := json.Marshal(e)
 		if err != nil {
 			panic(err)
@@ -85,6 +87,25 @@ func (s *Sink) Put(sc *Scenario) int {
 	s.idx.Write(b)
 	s.idx.WriteByte('\n')
 	return sc.ID
+}
+
+// noNil replaces nil slices and nil values (which encoding/json writes as
+// null, a value TLC's Json module cannot read) by empty lists, in the event
+// and in maps nested in it.
+func noNil(m map[string]any) {
+	for k, v := range m {
+		if v == nil {
+			m[k] = []any{}
+			continue
+		}
+		if mm, ok := v.(map[string]any); ok {
+			noNil(mm)
+			continue
+		}
+		if rv := reflect.ValueOf(v); (rv.Kind() == reflect.Slice || rv.Kind() == reflect.Map) && rv.IsNil() {
+			m[k] = []any{}
+		}
+	}
 }
 
 func (s *Sink) Close() error {
